@@ -16,7 +16,8 @@ from whoosim import util
 
 VERIF = os.path.dirname(os.path.dirname(os.path.abspath(__file__)))
 OUT = os.path.join(VERIF, "out")
-EVIDENCE = os.path.join(VERIF, "evidence")
+# (runs against a deliberately broken tree - mutants self-test, seeded-change evaluation - write elsewhere)
+EVIDENCE = os.environ.get("WHOOSIM_EVIDENCE_DIR") or os.path.join(VERIF, "evidence")
 KNOWN = os.path.join(VERIF, "known_findings.json")
 
 RUN_TIMEOUT = 120  # wall seconds per run before the watchdog dumps stacks
